@@ -122,6 +122,22 @@ def c13f(prog, rep):
     allv = [x["name"] for x in info["variants"]] if info else []
     if not rep.check(set(EXPRESSION_DIRECTIVES) <= set(allv), R, "anchor:ConditionalDirectiveKind", "ConditionalDirectiveKind no longer has the variants %s" % (EXPRESSION_DIRECTIVES,)):
         return
+    flag_of_kind = {}
+    tables = []
+    for path, ca in sorted(prog.const_arrays.items()):
+        if not path.startswith(LX) or not isinstance(ca.get("elems"), list):
+            continue
+        rows_ = []
+        for e in ca["elems"]:
+            if isinstance(e, list):
+                kinds_ = [x["path"].split("::")[-1] for x in e if isinstance(x, dict) and "ConditionalDirectiveKind::" in str(x.get("path", ""))]
+                flags_ = [x for x in e if isinstance(x, bool)]
+                if len(kinds_) == 1 and len(flags_) == 1:
+                    rows_.append((kinds_[0], flags_[0]))
+        if rows_ and len(rows_) == len(ca["elems"]):
+            tables.append(dict(rows_))
+    if len(tables) == 1:
+        flag_of_kind = tables[0]
     scanner = {}
     for cons, res in t.rows:
         r = render(res)
@@ -139,6 +155,12 @@ def c13f(prog, rep):
                     covered -= set(c[2])
         if not some:
             continue
+        # the choice may hang on a flag that conditional_directive_type looks up, with the kind, in a constant table of the lexer
+        # (`(name, kind, has_expression)` rows): the kinds a flag value stands for are read off that table
+        for c in cons:
+            if c[0] == "cond" and "conditional_directive_type(" in str(c[1]) and flag_of_kind:
+                want_flag = c[2] != 0
+                covered &= {k for k, fl in flag_of_kind.items() if fl == want_flag}
         for v in covered:
             scanner.setdefault(v, set()).update(sc or {"?"})
     bad = {v: sorted(scanner.get(v, {"<no row>"})) for v in EXPRESSION_DIRECTIVES if scanner.get(v) != {"find_directive_expr_end"}}
